@@ -39,10 +39,17 @@ EpochBlocks(b) == IF B[b].num = 0 THEN {}
                   ELSE IF B[b].num = CP(B[b].num) THEN {b} ELSE {b} \cup EpochBlocks(B[b].parent)
 Voters(b) == {B[x].signer : x \in EpochBlocks(b)}
 ComVoters(b) == {v \in Voters(b) : \A x \in EpochBlocks(b) : B[x].signer = v => B[x].com}
-RECURSIVE SumW(_)
-SumW(S) == IF S = {} THEN 0 ELSE LET x == CHOOSE x \in S : TRUE IN cfg.w[x] + SumW(S \ {x})
-Justified(b) == SumW(Voters(b)) > cfg.thrW
-Committed(b) == SumW(ComVoters(b)) > cfg.thrW
+\* Weights and threshold of an epoch are those of its checkpoint block (PoS: read by the driver from the checkpoint's
+\* post-housekeep state and logged with the block as a fact; PoA / no table logged: the trace-wide cfg.w and cfg.thrW).
+\* The threshold of a logged table is computed HERE: total weight * 2 / 3 (bft.newJustifier).
+RECURSIVE SumTab(_, _)
+SumTab(tab, S) == IF S = {} THEN 0 ELSE LET x == CHOOSE x \in S : TRUE IN tab[x] + SumTab(tab, S \ {x})
+WtOf(b) == B[AncAt(b, CP(B[b].num))].wt
+ThrOf(b) == LET cp == AncAt(b, CP(B[b].num)) IN
+            IF B[cp].haswt THEN (SumTab(B[cp].wt, DOMAIN B[cp].wt) * 2) \div 3 ELSE cfg.thrW
+SumW(b, S) == SumTab(WtOf(b), S)
+Justified(b) == SumW(b, Voters(b)) > ThrOf(b)
+Committed(b) == SumW(b, ComVoters(b)) > ThrOf(b)
 RECURSIVE Quality(_)
 Quality(b) == IF B[b].num = 0 THEN 0
               ELSE LET cp == CP(B[b].num)
@@ -95,12 +102,12 @@ NewCasts(v, S, f) ==
 Nodes == 0..(cfg.nodes - 1)
 Val(n) == "v" \o ToString(n)        \* node n runs validator vn
 
-Genesis == [parent |-> G, num |-> 0, signer |-> "none", com |-> FALSE, score |-> 0, ord |-> 0]
+Genesis == [parent |-> G, num |-> 0, signer |-> "none", com |-> FALSE, score |-> 0, ord |-> 0, wt |-> <<>>, haswt |-> FALSE]
 Ev == Trace[l]
 
 InitWith(c) ==
   /\ cfg = c
-  /\ B = [x \in {G} |-> Genesis]
+  /\ B = [x \in {G} |-> [Genesis EXCEPT !.wt = c.w]]
   /\ seen = [n \in 0..(c.nodes - 1) |-> {G}]
   /\ best = [n \in 0..(c.nodes - 1) |-> G]
   /\ fin = [n \in 0..(c.nodes - 1) |-> G]
@@ -112,7 +119,7 @@ Init == /\ HWMInit /\ Len(Trace) >= 1 /\ Trace[1].e = "Reset"
 
 Reset == /\ Ev.e = "Reset"
          /\ cfg' = Ev.cfg
-         /\ B' = [x \in {G} |-> Genesis]
+         /\ B' = [x \in {G} |-> [Genesis EXCEPT !.wt = Ev.cfg.w]]
          /\ seen' = [n \in 0..(Ev.cfg.nodes - 1) |-> {G}]
          /\ best' = [n \in 0..(Ev.cfg.nodes - 1) |-> G]
          /\ fin' = [n \in 0..(Ev.cfg.nodes - 1) |-> G]
@@ -124,7 +131,8 @@ New == /\ Ev.e = "New"
        /\ Ev.num = B[Ev.p].num + 1
        /\ B' = [x \in DOMAIN B \cup {Ev.b} |->
                   IF x = Ev.b THEN [parent |-> Ev.p, num |-> Ev.num, signer |-> Ev.signer, com |-> Ev.com,
-                                    score |-> Ev.score, ord |-> Ev.ord]
+                                    score |-> Ev.score, ord |-> Ev.ord,
+                                    wt |-> IF Has(Ev, "wt") THEN Ev.wt ELSE cfg.w, haswt |-> Has(Ev, "wt")]
                   ELSE B[x]]
        /\ UNCHANGED <<cfg, seen, best, fin, casts, lazy>>
 
